@@ -390,29 +390,37 @@ func c03Generate(e *c03Env, rnd *vh.Rand) error {
 			return err
 		}
 	}
-	// E. the all-zero id
-	zero := hex.EncodeToString(make([]byte, 32))
-	for _, kind := range leafKinds {
-		for _, unc := range []bool{false, true} {
-			for _, obj := range []string{"-", "00", "28b52ffd", "ff00ff00", "missing"} {
-				for v := 0; v < 3; v++ {
-					g.reset()
-					digest := g.setDigest()
-					var st *c03Node
-					switch v {
-					case 0:
-						st = g.leaf(kind, unc, false)
-					case 1:
-						st = g.wrap("cache", g.leaf(kind, unc, false), g.leaf("local", false, false))
-					case 2:
-						st = g.wrap("router", g.leaf(kind, unc, false), g.leaf("local", false, false))
-					}
-					c := &c03Case{Name: "zero-id/" + obj, Digest: digest, Stack: st, Ops: []string{"g:" + zero, "g:" + zero}}
-					if obj != "missing" {
-						c.Slots = []c03Slot{{K: 0, ID: zero, Obj: obj, Kind: "zero-id-object"}}
-					}
-					if err := g.run(c); err != nil {
-						return err
+	// E. the two ids with a special role in chunk.go: the all-zero id (what Chunk.ID returns
+	// when no data can be produced) and the id of the empty byte string
+	for _, special := range []string{"zero", "empty-data"} {
+		for _, kind := range leafKinds {
+			for _, unc := range []bool{false, true} {
+				for _, obj := range []string{"-", "00", "28b52ffd", "ff00ff00", "28b52ffd2000010000", "missing"} {
+					for v := 0; v < 4; v++ {
+						g.reset()
+						digest := g.setDigest()
+						id := hex.EncodeToString(make([]byte, 32))
+						if special == "empty-data" {
+							id = c03ID(nil)
+						}
+						var st *c03Node
+						switch v {
+						case 0:
+							st = g.leaf(kind, unc, false)
+						case 1:
+							st = g.wrap("cache", g.leaf(kind, unc, false), g.leaf("local", false, false))
+						case 2:
+							st = g.wrap("router", g.leaf(kind, unc, false), g.leaf("local", false, false))
+						case 3:
+							st = g.wrap("proto", g.leaf(kind, unc, true))
+						}
+						c := &c03Case{Name: special + "-id/" + obj, Digest: digest, Stack: st, Ops: []string{"g:" + id, "g:" + id}}
+						if obj != "missing" {
+							c.Slots = []c03Slot{{K: 0, ID: id, Obj: obj, Kind: special + "-id-object"}}
+						}
+						if err := g.run(c); err != nil {
+							return err
+						}
 					}
 				}
 			}
